@@ -12,6 +12,9 @@ CHECKS = {
  "C07": dict(cat="model_checking", design="3/C07", technique="TLA+ transcription of the upwind transport (PBMTransport.tla) model-checked exhaustively by TLC over a small exact domain; real PopulationBalanceModel bound by TLC-as-evaluator equality on the same and larger inputs",
              text="Conservation (sum law), upwinding, nucleation class, per-face limiting, non-negativity under the step limit and the step-limit formula are invariants TLC checks on every distribution/growth field/nucleation term/dt of the 3-class rational domain; the code is bound to the transcription by equality of netFlux, dXdt, corrected values, step limit, dissolution index and nucleation class on the 3-class product and on seeded 4-10 class instances.",
              note="uniform grids; rational inputs; rtol 1e-9; cases whose exact evaluation overflows TLC's 32-bit integers are skipped and counted in evidence"),
+ "C08": dict(cat="model_checking", design="3/C08", technique="TLA+ state machine of the size-class grid (PBM.tla) explored by TLC over all operation histories up to a bounded length; real PopulationBalanceModel bound by TLC-predicted attributes after every operation of the same histories",
+             text="Grid consistency is an invariant and extension/re-mesh/adaptive/reset laws are action properties checked by TLC on every history of <=3-4 operations from several grids; the as-built re-mesh that loses a narrow spike is a named deviation (known finding). The code executes the same alphabet (all histories <=2-3, seeded 4-6) and every public attribute after every operation must equal the specification's exact prediction, which also decides purity of the moment functions.",
+             note="tiny exact domain (grids from 0, <=6 classes, populations <=7, one re-mesh per distribution) because exact re-meshing overflows TLC's 32-bit rationals; revert only after a backup"),
 }
 
 NOT_APPLICABLE = {
